@@ -76,11 +76,23 @@ type ScriptExC struct{ ScriptCore }
 type ScriptPr struct{ ScriptCore }
 type ScriptPrC struct{ ScriptCore }
 
+// Dual-interface states: the state type implements BOTH ExchangeState and ProducerState. Which
+// callback the transport runs must follow the registered method (exchange methods: ExP*, producer
+// methods: PrX*), never the concrete type. The recorder tells which one ran.
+type ScriptExP struct{ ScriptCore }
+type ScriptExPC struct{ ScriptCore }
+type ScriptPrX struct{ ScriptCore }
+type ScriptPrXC struct{ ScriptCore }
+
 func init() {
 	vgirpc.RegisterStateType(&ScriptEx{})
 	vgirpc.RegisterStateType(&ScriptExC{})
 	vgirpc.RegisterStateType(&ScriptPr{})
 	vgirpc.RegisterStateType(&ScriptPrC{})
+	vgirpc.RegisterStateType(&ScriptExP{})
+	vgirpc.RegisterStateType(&ScriptExPC{})
+	vgirpc.RegisterStateType(&ScriptPrX{})
+	vgirpc.RegisterStateType(&ScriptPrXC{})
 }
 
 // scriptCall is what a scripted handler records about one invocation.
@@ -457,6 +469,33 @@ func (s *ScriptPrC) Produce(_ context.Context, out *vgirpc.OutputCollector, cc *
 }
 func (s *ScriptPrC) OnCancel(context.Context, *vgirpc.CallContext) error { return s.onCancel() }
 
+func (s *ScriptExP) Exchange(_ context.Context, in arrow.RecordBatch, out *vgirpc.OutputCollector, cc *vgirpc.CallContext) error {
+	return s.exchange(in, out, cc)
+}
+func (s *ScriptExP) Produce(_ context.Context, out *vgirpc.OutputCollector, cc *vgirpc.CallContext) error {
+	return s.produce(out, cc)
+}
+func (s *ScriptExPC) Exchange(_ context.Context, in arrow.RecordBatch, out *vgirpc.OutputCollector, cc *vgirpc.CallContext) error {
+	return s.exchange(in, out, cc)
+}
+func (s *ScriptExPC) Produce(_ context.Context, out *vgirpc.OutputCollector, cc *vgirpc.CallContext) error {
+	return s.produce(out, cc)
+}
+func (s *ScriptExPC) OnCancel(context.Context, *vgirpc.CallContext) error { return s.onCancel() }
+func (s *ScriptPrX) Exchange(_ context.Context, in arrow.RecordBatch, out *vgirpc.OutputCollector, cc *vgirpc.CallContext) error {
+	return s.exchange(in, out, cc)
+}
+func (s *ScriptPrX) Produce(_ context.Context, out *vgirpc.OutputCollector, cc *vgirpc.CallContext) error {
+	return s.produce(out, cc)
+}
+func (s *ScriptPrXC) Exchange(_ context.Context, in arrow.RecordBatch, out *vgirpc.OutputCollector, cc *vgirpc.CallContext) error {
+	return s.exchange(in, out, cc)
+}
+func (s *ScriptPrXC) Produce(_ context.Context, out *vgirpc.OutputCollector, cc *vgirpc.CallContext) error {
+	return s.produce(out, cc)
+}
+func (s *ScriptPrXC) OnCancel(context.Context, *vgirpc.CallContext) error { return s.onCancel() }
+
 // newScriptState builds the initial state object for a stream kind ("ex"|"pr") and cancel
 // behaviour ("absent"|"ok"|"err"|"panic").
 func newScriptState(kind, cancel, prog, rec string) interface{} {
@@ -467,6 +506,14 @@ func newScriptState(kind, cancel, prog, rec string) interface{} {
 func newScriptStatePad(kind, cancel, prog, rec, pad string) interface{} {
 	core := ScriptCore{Prog: prog, Rec: rec, Cancel: cancel, Pad: scriptPad(pad)}
 	switch {
+	case kind == "ex+" && cancel == "absent": // "+": the state type implements both stream interfaces
+		return &ScriptExP{core}
+	case kind == "ex+":
+		return &ScriptExPC{core}
+	case kind == "pr+" && cancel == "absent":
+		return &ScriptPrX{core}
+	case kind == "pr+":
+		return &ScriptPrXC{core}
 	case kind == "ex" && cancel == "absent":
 		return &ScriptEx{core}
 	case kind == "ex":
@@ -476,6 +523,20 @@ func newScriptStatePad(kind, cancel, prog, rec, pad string) interface{} {
 	default:
 		return &ScriptPrC{core}
 	}
+}
+
+// scriptStateKind tells the METHOD kind a scripted state belongs to (producer?) and whether its
+// type has an OnCancel method.
+func scriptStateKind(state interface{}) (producer, canceller bool) {
+	switch state.(type) {
+	case *ScriptPr, *ScriptPrX:
+		return true, false
+	case *ScriptPrC, *ScriptPrXC:
+		return true, true
+	case *ScriptExC, *ScriptExPC:
+		return false, true
+	}
+	return false, false
 }
 
 // scriptCoreOf extracts the core of a state decoded from a cursor token.
@@ -488,6 +549,14 @@ func scriptCoreOf(state interface{}) (*ScriptCore, bool) {
 	case *ScriptPr:
 		return &s.ScriptCore, true
 	case *ScriptPrC:
+		return &s.ScriptCore, true
+	case *ScriptExP:
+		return &s.ScriptCore, true
+	case *ScriptExPC:
+		return &s.ScriptCore, true
+	case *ScriptPrX:
+		return &s.ScriptCore, true
+	case *ScriptPrXC:
 		return &s.ScriptCore, true
 	}
 	return nil, false
